@@ -255,6 +255,30 @@ static ssize_t do_read(OpenFile& of, void* buf, size_t n, off_t* explicit_off, b
   size_t pos = explicit_off ? (size_t)*explicit_off : of.pos;
   size_t avail = pos < ino.data.size() ? ino.data.size() - pos : 0;
 
+  if (!ino.read_script.empty() && n > 0) {
+    int act = of.script_pos < ino.read_script.size() ? ino.read_script[of.script_pos] : 0;
+    if (act >= 0) of.script_pos++; // an error is persistent (failed medium): every later read fails too
+    if (act < 0) {
+      VS_FAULT("EIO@read");
+      c.errors++;
+      c.last_errno = EIO;
+      vsim::ev("read.EIO", 1, n);
+      errno = EIO;
+      return -1;
+    }
+    size_t k = std::min(n, avail);
+    if (act > 0 && (size_t)act < k) {
+      k = act;
+      c.short_reads++;
+      VS_FAULT("short_read");
+    }
+    if (k) memcpy(buf, ino.data.data() + pos, k);
+    if (!explicit_off) of.pos = pos + k;
+    of.bytes_delivered += k;
+    c.bytes_read += k;
+    vsim::ev("read", n, k, avail);
+    return k;
+  }
   // injected errors first
   if (f.eio && n > 0 && vsim::chance(1, f.eio, "read.eio")) {
     VS_FAULT("EIO@read");
@@ -449,6 +473,7 @@ struct Cookie {
 };
 
 static ssize_t cookie_read(void* cookie, char* buf, size_t size) {
+  vsim::Quiet quiet;
   Cookie* ck = (Cookie*)cookie;
   OpenFile* of = fd_entry(ck->fd);
   if (!of || !of->is_open) {
@@ -459,6 +484,7 @@ static ssize_t cookie_read(void* cookie, char* buf, size_t size) {
 }
 
 static ssize_t cookie_write(void* cookie, const char* buf, size_t size) {
+  vsim::Quiet quiet;
   Cookie* ck = (Cookie*)cookie;
   OpenFile* of = fd_entry(ck->fd);
   if (!of || !of->is_open) {
@@ -471,6 +497,7 @@ static ssize_t cookie_write(void* cookie, const char* buf, size_t size) {
 }
 
 static int cookie_seek(void* cookie, off64_t* offset, int whence) {
+  vsim::Quiet quiet;
   Cookie* ck = (Cookie*)cookie;
   OpenFile* of = fd_entry(ck->fd);
   if (!of || !of->is_open || !ck->seekable || of->ino->kind != Kind::REG) {
@@ -497,6 +524,7 @@ static int cookie_seek(void* cookie, off64_t* offset, int whence) {
 }
 
 static int cookie_close(void* cookie) {
+  vsim::Quiet quiet;
   Cookie* ck = (Cookie*)cookie;
   OpenFile* of = fd_entry(ck->fd);
   if (of) {
@@ -508,6 +536,7 @@ static int cookie_close(void* cookie) {
 }
 
 FILE* fopen_inode(std::shared_ptr<Inode> ino, const char* mode, int* fd_out, bool seekable) {
+  vsim::Quiet quiet;
   int flags = O_RDONLY;
   if (strchr(mode, '+')) flags = O_RDWR;
   else if (mode[0] == 'w' || mode[0] == 'a') flags = O_WRONLY;
